@@ -92,6 +92,10 @@ def embedding(which):
             a, b = complex(rng.standard_normal(), rng.standard_normal()), complex(rng.standard_normal(), rng.standard_normal())
             check('focus-linear-' + method, bool(np.allclose(fwd(a * f + b * g), a * fwd(f) + b * fwd(g), **tol)))
             check('unfocus-linear-' + method, bool(np.allclose(bwd(a * f + b * g), a * bwd(f) + b * bwd(g), **tol)))
+            # linearity across the real / complex container boundary: a real-dtype field is the same physical field as its complex cast
+            fr, fi = f.real.copy(), f.imag.copy()
+            check('focus-real-dtype-' + method, bool(np.allclose(fwd(fr), fwd(fr + 0j), **tol) and np.allclose(fwd(fr) + 1j * fwd(fi), fwd(f), **tol)))
+            check('unfocus-real-dtype-' + method, bool(np.allclose(bwd(fr), bwd(fr + 0j), **tol) and np.allclose(bwd(fr) + 1j * bwd(fi), bwd(f), **tol)))
         elif which == 'embedding-invariance':
             big = (m + int(rng.integers(0, 6)), n + int(rng.integers(0, 6)))
             fp = ft.pad2d(f, out_shape=big)
